@@ -224,8 +224,8 @@ def delaunay_rule(ctx, p, K):
     ctx.ob(rule, m.key + ":vertices-call", got == {"source_plane_data_grid": "self.source_plane_data_grid", "simplex_index_for_sub_slim_index": "self.delaunay.find_simplex(self.source_plane_data_grid)", "pix_indexes_for_simplex_index": "self.delaunay.simplices", "delaunay_points": "self.delaunay.points"},
            where=m, node=cs[0] if cs else m.node, construct=str(got), message="the vertex table must come from the triangulation's own simplices / points and the simplex found for the data grid")
     txt = {norm_text(n.targets[0]): norm_text(n.value) for n in m.body_nodes() if isinstance(n, ast.Assign)}
-    # (aliases of attribute chains are propagated by the canonicalisation pass, N15; the vertices-call obligation above already binds simplices / points / find_simplex to self.delaunay)
-    ctx.ob(rule, m.key + ":simplex", txt.get("simplex_index_for_sub_slim_index") in ("delaunay.find_simplex(self.source_plane_data_grid)", "self.delaunay.find_simplex(self.source_plane_data_grid)") and txt.get("delaunay", "self.delaunay") == "self.delaunay",
+    # (aliases of attribute chains are propagated by the canonicalisation pass, N15; the vertices-call obligation above - name-free through kwr - already binds simplices / points / find_simplex to self.delaunay)
+    ctx.ob(rule, m.key + ":simplex", got.get("simplex_index_for_sub_slim_index") == "self.delaunay.find_simplex(self.source_plane_data_grid)",
            where=m, node=m.node, construct=str({k: v for k, v in txt.items() if "simplex" in k}), message="the containing simplex must be looked up for the source-plane data grid in the mesh's own triangulation")
 
 
@@ -292,8 +292,10 @@ def wiring_rule(ctx, p):
               "pix_weights_for_sub_slim_index": "self.pix_weights_for_sub_slim_index", "pix_pixels": "self.params", "sub_size": "self.over_sampler.sub_size"}
     ctx.ob(rule, m.key, gu == want_u, where=m, node=cs[0] if cs else m.node, construct=str(gu), message=f"the unique form must be built from the SAME tables as the dense form; expected {want_u}")
     rets = wire.returns_of(m)
-    kwv = {k: norm_text(v) for k, v in wire.kw(rets[0].value).items()} if rets and isinstance(rets[0].value, ast.Call) else {}
-    ctx.ob(rule, m.key + ":result", kwv == {"data_to_pix_unique": "data_to_pix_unique", "data_weights": "data_weights", "pix_lengths": "pix_lengths"}, where=m, node=m.node, construct=str(kwv), message="each returned table goes to its own slot of UniqueMappings")
+    # name-free: slot k of UniqueMappings receives result k of the unique routine (through the tuple it was unpacked into, whatever the locals are called)
+    kwv = wire.kwr(m, rets[0].value, unpack=True) if rets and isinstance(rets[0].value, ast.Call) else {}
+    inner_u = norm_text(wire.inline_locals(m, cs[0]), limit=4000) if len(cs) == 1 else "?"
+    ctx.ob(rule, m.key + ":result", kwv == {"data_to_pix_unique": f"{inner_u}[0]", "data_weights": f"{inner_u}[1]", "pix_lengths": f"{inner_u}[2]"}, where=m, node=m.node, construct=str(kwv), message="each returned table goes to its own slot of UniqueMappings")
     for name, attr in (("pix_indexes_for_sub_slim_index", "mappings"), ("pix_sizes_for_sub_slim_index", "sizes"), ("pix_weights_for_sub_slim_index", "weights")):
         mm = c.lookup(name)
         rets = wire.returns_of(mm)
@@ -456,12 +458,20 @@ def neighbors_rule(ctx, p, K):
     f = p.func(f"{MU_}:rectangular_neighbors_from")
     calls = [c for c in f.calls() if norm_text(c.func) in classes]
     kws = [wire.kwtext(c) for c in calls]
-    ok = sorted(norm_text(c.func) for c in calls) == sorted(classes) and all(k == {"neighbors": "neighbors", "neighbors_sizes": "neighbors_sizes", "shape_native": "shape_native"} for k in kws)
-    init = {norm_text(n.targets[0]): norm_text(n.value).replace(" ", "") for n in f.node.body if isinstance(n, ast.Assign) and isinstance(n.targets[0], ast.Name)}
-    ok = ok and init.get("neighbors") in ("-1*np.ones((pixels,4))", "np.ones((pixels,4))*-1", "-np.ones((pixels,4))", "np.full((pixels,4),-1)", "np.full((pixels,4),-1.0)") and init.get("neighbors_sizes") == "np.zeros(pixels)" \
-        and init.get("pixels") in ("int(shape_native[0]*shape_native[1])", "shape_native[0]*shape_native[1]")
+    # name-free: N / Z are whatever locals the first helper receives as table / sizes; every helper gets the same two and the same shape; their first values
+    # (temporaries inlined) are the -1 table of width 4 and the zero sizes over shape[0] * shape[1] pixels; (N, Z) is returned
+    N_, Z_ = (kws[0].get("neighbors"), kws[0].get("neighbors_sizes")) if kws else (None, None)
+    ok = sorted(norm_text(c.func) for c in calls) == sorted(classes) and N_ is not None and Z_ is not None and all(k == {"neighbors": N_, "neighbors_sizes": Z_, "shape_native": "shape_native"} for k in kws)
+    first = {}
+    for n in f.node.body:
+        if isinstance(n, ast.Assign) and len(n.targets) == 1 and isinstance(n.targets[0], ast.Name) and n.targets[0].id not in first:
+            first[n.targets[0].id] = norm_text(wire.inline_locals(f, n.value), limit=600).replace(" ", "")
+    init = {"neighbors": first.get(N_), "neighbors_sizes": first.get(Z_)}
+    PIX = ("int(shape_native[0]*shape_native[1])", "shape_native[0]*shape_native[1]")
+    ok = ok and init["neighbors"] in {t_.replace("pixels", px_) for px_ in PIX for t_ in ("-1*np.ones((pixels,4))", "np.ones((pixels,4))*-1", "-np.ones((pixels,4))", "np.full((pixels,4),-1)", "np.full((pixels,4),-1.0)")} \
+        and init["neighbors_sizes"] in {f"np.zeros({px_})" for px_ in PIX}
     rets = wire.returns_of(f)
-    ok = ok and len(rets) == 1 and norm_text(rets[0].value) in ("(neighbors, neighbors_sizes)", "neighbors, neighbors_sizes")
+    ok = ok and len(rets) == 1 and norm_text(rets[0].value).replace(" ", "") in (f"({N_},{Z_})", f"{N_},{Z_}")
     ctx.ob(rule, f.key, ok, where=f, node=f.node, construct=f"{len(calls)} helper calls; init {init}"[:300],
            message="the table must start as -1 (width 4) with zero sizes and be filled by all six class helpers on the same arrays and shape")
     m = p.func("autoarray.structures.mesh.rectangular_2d:Mesh2DRectangular.neighbors")
@@ -472,21 +482,31 @@ def neighbors_rule(ctx, p, K):
     d = p.func("autoarray.structures.mesh.delaunay_2d:Mesh2DDelaunay.neighbors")
     txt = {norm_text(n.targets[0]): norm_text(n.value) for n in d.body_nodes() if isinstance(n, ast.Assign)}
     loops = [n for n in wire.main_line(d) if isinstance(n, ast.For)]
-    from ..forms import index_form, src_poly as _P
-    sizes_ok = expr_poly_eq(d, "sizes", "indptr[1:] - indptr[:-1]") or txt.get("sizes") in ("np.diff(indptr)", "numpy.diff(indptr)")
-    ok = txt.get("(indptr, indices)") == "self.delaunay.vertex_neighbor_vertices" and sizes_ok and len(loops) == 1 and norm_text(loops[0].iter) in ("range(self.parameters)", "range(len(sizes))", "range(sizes.shape[0])")
+    from ..forms import index_form, src_poly as _P, expr_poly as _E
+    from .. import paths
+    # the locals by their roles, whatever they are called: (IP, IX) = the CSR pair of scipy's vertex adjacency; SZ = the row lengths; NB = the table the loop fills
+    pair = [n for n in d.body_nodes() if isinstance(n, ast.Assign) and isinstance(n.targets[0], ast.Tuple) and len(n.targets[0].elts) == 2 and norm_text(n.value) == "self.delaunay.vertex_neighbor_vertices"]
+    IP, IX = (norm_text(pair[0].targets[0].elts[0]), norm_text(pair[0].targets[0].elts[1])) if len(pair) == 1 else (None, None)
+    sz = [n for n in d.body_nodes() if isinstance(n, ast.Assign) and isinstance(n.targets[0], ast.Name) and IP is not None
+          and (_E(n.value) == _P(f"{IP}[1:] - {IP}[:-1]") or norm_text(n.value) in (f"np.diff({IP})", f"numpy.diff({IP})"))]
+    SZ = sz[0].targets[0].id if len(sz) == 1 else None
+    ok = IP is not None and SZ is not None and len(loops) == 1 and norm_text(loops[0].iter) in ("range(self.parameters)", f"range(len({SZ}))", f"range({SZ}.shape[0])")
     if ok:
         k = norm_text(loops[0].target)
-        # one pass through the loop body with its temporaries substituted (sa/paths.py): neighbors[k, 0 : sizes[k]] = indices[indptr[k] : indptr[k + 1]]
-        from .. import paths
+        # one pass through the loop body with its temporaries substituted (sa/paths.py): NB[k, 0 : SZ[k]] = IX[IP[k] : IP[k + 1]]
         PSb = paths.path_summaries(d, body=loops[0].body) or []
-        sp = paths.store_parts(PSb[0].env.get("neighbors")) if len(PSb) == 1 and PSb[0].kind == "fall" else None
-        ok = sp is not None and paths.ptext(sp[0]) == "neighbors"
+        stores = [(nm_, paths.store_parts(v_)) for nm_, v_ in (PSb[0].env.items() if len(PSb) == 1 and PSb[0].kind == "fall" else []) if paths.store_parts(v_) is not None]
+        ok = len(stores) == 1
         if ok:
-            tgt = ast.Subscript(value=ast.Name(id="neighbors", ctx=ast.Load()), slice=sp[1], ctx=ast.Load())
-            ok = index_form(tgt) == ("neighbors", (("at", _P(k)), ("slice", ZERO, _P(f"sizes[{k}]")))) \
-                and index_form(sp[2]) == ("indices", (("slice", _P(f"indptr[{k}]"), _P(f"indptr[{k} + 1]")),))
-    ctx.ob(rule, d.key, ok, where=d, node=d.node, construct=str({k_: v_ for k_, v_ in txt.items() if k_ in ("(indptr, indices)", "sizes")}),
+            NB, sp = stores[0]
+            tgt = ast.Subscript(value=ast.Name(id=NB, ctx=ast.Load()), slice=sp[1], ctx=ast.Load())
+            ok = paths.ptext(sp[0]) == NB and index_form(tgt) == (NB, (("at", _P(k)), ("slice", ZERO, _P(f"{SZ}[{k}]")))) \
+                and index_form(sp[2]) == (IX, (("slice", _P(f"{IP}[{k}]"), _P(f"{IP}[{k} + 1]")),))
+            # what is returned is that table and those sizes
+            rets_d = paths.returns(paths.path_summaries(d) or [])
+            kw_d = {k_: wire.text_nokw(wire.inline_locals(d, v_)) if False else norm_text(v_) for k_, v_ in (wire.kw(wire.returns_of(d)[0].value).items() if len(wire.returns_of(d)) == 1 and isinstance(wire.returns_of(d)[0].value, ast.Call) else [])}
+            ok = ok and kw_d.get("arr", "").startswith(NB) and kw_d.get("sizes", "").startswith(SZ)
+    ctx.ob(rule, d.key, ok, where=d, node=d.node, construct=f"CSR pair ({IP}, {IX}); sizes {SZ}",
            message="Delaunay neighbours must be scipy's vertex adjacency: row k = indices[indptr[k] : indptr[k + 1]], size k = indptr[k + 1] - indptr[k]")
 
 
